@@ -103,7 +103,7 @@ BigBody(n, v) == IF v < 2 THEN <<Cont(Ids[1], [i \in 1..n |-> BigStmt(v, i)]), C
                  ELSE IF v = 2 THEN <<Cont(Ids[1], <<Cont(Ids[2], [i \in 1..n |-> BigStmt(n % 2, i)]), Leaf(C("x"), << >>)>>), Terms[1]>>
                  ELSE [i \in 1..n |-> BigStmt((n + 1) % 2, i)] \o <<Cont(Ids[2], <<Terms[2], Terms[1]>>)>>
 BigSizes == IF Thorough THEN (1..80) \cup {96, 127, 128, 129, 143, 144, 160, 255, 256, 257, 300} ELSE 1..80
-BigVariants(n) == IF Thorough /\ n <= 80 THEN 0..3 ELSE {n % 4, (n + 1 + (n \div 4)) % 4}
+BigVariants(n) == 0..3
 \* which small trees get the full set of layouts (all of them in the thorough tier)
 \* ("shift": trees with fixed source forms get the blank trivia only, which is what moves an occurrence to another column)
 FullSet(i, body) == IF HasRaw(Module(body)) THEN (IF Thorough THEN "full" ELSE "shift")
@@ -165,12 +165,42 @@ BomLayouts(f, tid, body) ==
   IN {V([b \in 1..k |-> t], Zero(k), 0, Feat("bom", 0, t)) : t \in {0, 3, 6, 1}}
      \cup {LET e == RandomElement(0..(Len(TrivEnd) - 1)) IN
            V([b \in 1..k |-> RandomElement(0..(MaxMenu - 1))], [b \in 1..k |-> RandomElement(0..5)], e, Feat("bom-random", 0, j)) : j \in 1..(IF Thorough THEN NLay ELSE 2)}
-\* big blocks: the compact layout, one line per statement, and (smaller ones) a random layout
-BigLayouts(f, tid, body, n) ==
-  LET src == Module(body)  k == NSlots(src) IN
-  {Vec(f, tid, src, Layout([b \in 1..k |-> t], Zero(k), src, 0), Feat("big", 0, t), 0) : t \in {0, 6}}
-  \cup (IF n <= 40 THEN {LET e == RandomElement(0..(Len(TrivEnd) - 1)) IN
-         Vec(f, tid, src, Layout([b \in 1..k |-> RandomElement(0..(MaxMenu - 1))], [b \in 1..k |-> RandomElement(0..5)], src, e), Feat("random", 0, 1), e)} ELSE {})
+\* big blocks are rendered directly (the general layout machinery is too slow for hundreds of statements): ASCII, unquoted
+\* arguments, one blank between tokens; a statement is written on one line ("flat") or, down to depth d, with every
+\* substatement on a line of its own, indented by two blanks per level.  Positions follow by construction; for the smaller
+\* sizes TLC checks that the spec's reader finds exactly this tree in the text.
+FAnn(n, line, col, subs) == [kw |-> n.kw, kwAlt |-> n.kw, hasArg |-> n.hasArg, arg |-> n.arg, argJ |-> TRUE, line |-> line, col |-> col, colJ |-> TRUE, subs |-> subs]
+FHead(n) == n.kw \o (IF n.hasArg THEN <<SP>> \o n.arg ELSE << >>)
+RECURSIVE FlatStmt(_, _, _), FlatSeq(_, _, _, _, _, _)
+FlatStmt(n, line, col) ==
+  IF n.subs = << >> THEN [text |-> FHead(n) \o <<SEMI>>, tree |-> FAnn(n, line, col, << >>)]
+  ELSE LET open == FHead(n) \o C(" { ")
+           ss == FlatSeq(n.subs, line, col + Len(open), 1, << >>, << >>)
+       IN [text |-> open \o ss.text \o C(" }"), tree |-> FAnn(n, line, col, ss.trees)]
+FlatSeq(subs, line, col, k, text, trees) ==
+  IF k > Len(subs) THEN [text |-> text, trees |-> trees]
+  ELSE LET st == FlatStmt(subs[k], line, col) IN
+       FlatSeq(subs, line, col + Len(st.text) + 1, k + 1, text \o st.text \o (IF k < Len(subs) THEN <<SP>> ELSE << >>), Append(trees, st.tree))
+RECURSIVE LinesStmt(_, _, _, _), LinesSeq(_, _, _, _, _, _, _)
+\* the statement starts on `line` at column `ind`; returns its text (no final line feed), its tree and the line it ends on
+LinesStmt(n, line, ind, d) ==
+  IF d = 0 \/ n.subs = << >> THEN LET f == FlatStmt(n, line, ind) IN [text |-> f.text, tree |-> f.tree, last |-> line]
+  ELSE LET ss == LinesSeq(n.subs, line + 1, ind + 2, d - 1, 1, << >>, << >>) IN
+       [text |-> FHead(n) \o C(" {") \o <<LF>> \o ss.text \o Spaces(ind) \o C("}"), tree |-> FAnn(n, line, ind, ss.trees), last |-> ss.line]
+\* every substatement on its own line(s), each followed by a line feed; `line` is where the next one starts
+LinesSeq(subs, line, ind, d, k, text, trees) ==
+  IF k > Len(subs) THEN [text |-> text, trees |-> trees, line |-> line]
+  ELSE LET st == LinesStmt(subs[k], line, ind, d) IN
+       LinesSeq(subs, st.last + 1, ind, d, k + 1, text \o Spaces(ind) \o st.text \o <<LF>>, Append(trees, st.tree))
+BigVec(f, tid, body, d) ==
+  LET src == Module(body)
+      r == LinesStmt(src, 1, 0, d)
+      text == r.text \o <<LF>>
+      small == CountStmts(src) <= 40
+  IN [fam |-> f, tid |-> tid, text |-> text, tree |-> r.tree, hasTree |-> TRUE, judged |-> TRUE, feat |-> Feat("big", 0, d), layoutFree |-> TRUE,
+      wordThenComment |-> FALSE, lineCommentAtEnd |-> FALSE,
+      ok |-> ~small \/ LET p == ParseText(text) IN Assert(p.ok /\ p.tree = r.tree, <<"spec fault: the reader does not find the tree of a directly rendered text", text>>)]
+BigLayouts(f, tid, body, n) == {BigVec(f, tid, body, d) : d \in 0..3}
 
 Cases ==
   UNION {Layouts(fam, i, Small[i], FullSet(i, Small[i])) : i \in {i \in 1..Len(Small) : i % NFam = fam % NFam}}
